@@ -1,6 +1,7 @@
 import GrogModel.Drv.Proto
 import GrogModel.Hash
 import GrogModel.Sha256
+import GrogModel.Xxh3
 import GrogModel.Proto
 open Lean
 
@@ -21,6 +22,16 @@ def getPairs (j : Json) (k : String) : Except String (List (Bytes × Option Byte
 def sha : Handler := fun j => do
   let s ← getBytes j "s"
   pure (Json.mkObj [("hex", jBytes (Sha256.sha256Hex s))])
+
+def xxh : Handler := fun j => do
+  let s ← getBytes j "s"
+  pure (Json.mkObj [("hex", jBytes (Xxh3.xxh3Hex s))])
+
+/-- the hash function grog's `GetHasher` selects for a `hash_algorithm` value -/
+def hasherOf (algo : String) : Except String (Bytes → Bytes) :=
+  if algo == "sha256" then pure Sha256.sha256Hex
+  else if algo == "xxh3" || algo == "" then pure Xxh3.xxh3Hex
+  else throw "unknown hash algorithm"
 
 def colon2 : Bytes := [58, 58]
 
@@ -53,8 +64,8 @@ def keyH : Handler := fun j => do
   let s ← stateOf j
   let algo ← getStr j "algo"
   let variant := (j.getObjValAs? String "variant").toOption.getD "new"
-  if algo != "sha256" then throw "model computes keys only under sha256"
-  let k := if variant == "old" then keyOld Sha256.sha256Hex s else key Sha256.sha256Hex s
+  let H ← hasherOf algo
+  let k := if variant == "old" then keyOld H s else key H s
   pure (Json.mkObj [("key", jBytes k)])
 
 def outputOf (o : Json) : Except String Proto.Output := do
@@ -74,13 +85,13 @@ def outputOf (o : Json) : Except String Proto.Output := do
 
 def outH : Handler := fun j => do
   let algo ← getStr j "algo"
-  if algo != "sha256" then throw "model computes hashes only under sha256"
+  let H ← hasherOf algo
   let arr ← getArr j "outputs"
   let outs ← arr.toList.mapM outputOf
   let ser := outs.map Proto.serOutput
-  pure (Json.mkObj [("hash", jBytes (outHash Sha256.sha256Hex ser)), ("ser", jBytesList ser)])
+  pure (Json.mkObj [("hash", jBytes (outHash H ser)), ("ser", jBytesList ser)])
 
 def handlers : List (String × Handler) :=
-  [("hash.sha256", sha), ("hash.key", keyH), ("hash.out", outH)]
+  [("hash.sha256", sha), ("hash.xxh3", xxh), ("hash.key", keyH), ("hash.out", outH)]
 
 end Grog.Drv.Hash
